@@ -528,3 +528,221 @@ theorem sw_rule_step {α} (st : St SwSt) (k : Nat) (n : Notif (HV α)) (h : SwI 
       · simpa [swM, swHandler, swTStep, hk0, hc, actEmits, cut, swAbs] using hr
 
 end Comb
+
+namespace Comb
+
+/-! ## merge_all / merge(max_concurrent): completion -/
+
+/-- the completion rule of merge remembers the inners that arrived and have not completed yet, and whether the outer completed -/
+structure MaT where
+  pending : List Nat := []
+  outerDone : Bool := false
+
+def maTStep {α} (t : MaT) : Nat × Notif (HV α) → MaT
+  | (k, .next (.obs j)) => if k = 0 then { t with pending := t.pending ++ [j + 1] } else t
+  | (k, .completed) => if k = 0 then { t with outerDone := true } else { t with pending := t.pending.erase k }
+  | _ => t
+
+def maRule (t : MaT) : Prop := t.outerDone = true ∧ t.pending = []
+
+def maAbs (s : MaSt) : MaT := { pending := s.group, outerDone := s.stopped }
+
+theorem ma_abs_step {α} (st : St MaSt) (e : Ev (HV α)) :
+    maAbs (step (maM (α := α)) st e).1.s = (accOne st e).foldl maTStep (maAbs st.s) := by
+  cases e with
+  | tick => simp [step, maM, accOne]
+  | dispose => simp [step, accOne]
+  | src k n =>
+    by_cases hk : k ∈ st.p.live
+    · rw [step_src_state _ _ _ _ hk]
+      simp only [accOne, hk, if_true, List.foldl_cons, List.foldl_nil, maM]
+      cases n with
+      | next x => cases x <;> by_cases hk0 : k = 0 <;> simp [maHandler, maTStep, maAbs, hk0]
+      | error er => simp [maHandler, maTStep, maAbs]
+      | completed => by_cases hk0 : k = 0 <;> simp [maHandler, maTStep, maAbs, hk0]
+    · simp [step_src_not_live _ _ _ _ hk, accOne, hk]
+
+theorem ma_rule_step {α} (s : MaSt) (k : Nat) (n : Notif (HV α)) (hr : ¬ maRule (maAbs s)) :
+    (Notif.completed ∈ cut (actEmits ((maM (α := α)).handler s k n).2) ↔ maRule (maTStep (maAbs s) (k, n))) := by
+  cases n with
+  | next x =>
+    cases x with
+    | obs j =>
+      by_cases hk0 : k = 0
+      · simp [maM, maHandler, maTStep, maAbs, maRule, hk0, actEmits, cut]
+      · simpa [maM, maHandler, maTStep, hk0, actEmits, cut] using hr
+    | val v =>
+      by_cases hk0 : k = 0
+      · simpa [maM, maHandler, maTStep, hk0, actEmits, cut] using hr
+      · simpa [maM, maHandler, maTStep, hk0, actEmits, cut, Notif.isTerminal] using hr
+  | error er => simpa [maM, maHandler, maTStep, actEmits, cut, Notif.isTerminal] using hr
+  | completed =>
+    by_cases hk0 : k = 0
+    · simp only [maM, maHandler, maTStep, hk0, if_true, maRule, maAbs]
+      cases hg : s.group <;> simp [actEmits, cut, Notif.isTerminal]
+    · simp only [maM, maHandler, maTStep, hk0, if_false, maRule, maAbs]
+      cases hs : s.stopped <;> cases hg : s.group.erase k <;> simp [actEmits, cut, Notif.isTerminal]
+
+/-- merge(max_concurrent): the completion rule on the operator's own counters -/
+def mcRule (s : McSt) : Prop := s.stopped = true ∧ s.active = 0
+
+theorem mc_rule_step {α} (maxc : Nat) (s : McSt) (k : Nat) (n : Notif (HV α)) (hr : ¬ mcRule s) :
+    (Notif.completed ∈ cut (actEmits ((mcM (α := α) maxc).handler s k n).2)
+      ↔ mcRule ((mcM (α := α) maxc).handler s k n).1) := by
+  cases n with
+  | next x =>
+    cases x with
+    | obs j =>
+      by_cases hk0 : k = 0
+      · by_cases ha : s.active < maxc
+        · simp [mcM, mcHandler, mcRule, hk0, ha, actEmits, cut]
+        · simpa [mcM, mcHandler, mcRule, hk0, ha, actEmits, cut] using hr
+      · simpa [mcM, mcHandler, hk0, actEmits, cut] using hr
+    | val v =>
+      by_cases hk0 : k = 0
+      · simpa [mcM, mcHandler, hk0, actEmits, cut] using hr
+      · simpa [mcM, mcHandler, hk0, actEmits, cut, Notif.isTerminal] using hr
+  | error er => simpa [mcM, mcHandler, actEmits, cut, Notif.isTerminal] using hr
+  | completed =>
+    by_cases hk0 : k = 0
+    · simp only [mcM, mcHandler, hk0, if_true, mcRule]
+      by_cases ha : s.active = 0 <;> simp [ha, actEmits, cut, Notif.isTerminal]
+    · cases hq : s.queue with
+      | cons j rest =>
+        have : ¬ (s.stopped = true ∧ s.active = 0) := hr
+        simpa [mcM, mcHandler, hk0, hq, mcRule, actEmits, cut] using this
+      | nil =>
+        simp only [mcM, mcHandler, hk0, hq, if_false, mcRule]
+        cases hs : s.stopped <;> by_cases ha : s.active - 1 = 0 <;> simp [ha, actEmits, cut, Notif.isTerminal]
+
+end Comb
+
+namespace Comb
+
+/-! ## concat_map (max_concurrent = 1): the only live inner is the most recently subscribed one -/
+
+theorem cnt_zero_no_inner (p : Plumb) (h : cnt p = 0) : ∀ j, j ∈ p.live → j = 0 := by
+  intro j hj
+  by_cases hj0 : j = 0
+  · exact hj0
+  · have : j ∈ p.live.filter (· != 0) := List.mem_filter.mpr ⟨hj, by simpa using hj0⟩
+    rw [List.length_eq_zero_iff.mp h] at this; cases this
+
+theorem act_unsub_live_sub {β} (p : Plumb) (k j : Nat) (hj : j ∈ (p.act (β := β) (.unsub k)).1.live) : j ∈ p.live := by
+  simp only [Plumb.act] at hj
+  split at hj
+  · exact List.mem_of_mem_erase hj
+  · exact hj
+
+theorem act_emit_live_sub {β} (p : Plumb) (n : Notif β) (j : Nat) (hj : j ∈ (p.act (.emit n)).1.live) : j ∈ p.live := by
+  simp only [Plumb.act] at hj
+  split at hj
+  · exact hj
+  · split at hj
+    · simp at hj
+    · exact hj
+
+theorem act_sub_live {β} (p : Plumb) (i j : Nat) (hj : j ∈ (p.act (β := β) (.sub i)).1.live) : j ∈ p.live ∨ j = i := by
+  simp only [Plumb.act] at hj
+  split at hj
+  · exact Or.inl hj
+  · simpa using hj
+
+structure OInv (subs : List Nat) (st : St McSt) : Prop where
+  inv : McInv 1 st
+  last : ∀ j, j ∈ st.p.live → j ≠ 0 → subs.getLast? = some j
+
+theorem o_step {α} (subs : List Nat) (st : St McSt) (e : Ev (HV α)) (h : OInv subs st) :
+    OInv (subs ++ subsOf (step (mcM (α := α) 1) st e).2) (step (mcM (α := α) 1) st e).1 := by
+  refine ⟨mc_step_inv 1 st e h.inv, ?_⟩
+  cases e with
+  | tick => simpa [step, mcM, Plumb.acts] using h.last
+  | dispose => intro j hj; simp [step, Plumb.dispose] at hj
+  | src k n =>
+    by_cases hk : k ∈ st.p.live
+    · have hnd := not_done_of_live h.inv.wf hk
+      rw [subsOf_step_src _ _ _ _ hk]
+      by_cases hk0 : k = 0
+      · subst hk0
+        cases n with
+        | next x =>
+          cases x with
+          | obs j =>
+            by_cases ha : st.s.active < 1
+            · have hc0 : cnt st.p = 0 := by have := h.inv.le; omega
+              intro j' hj' hj0
+              simp only [step, hk, if_true, mcM, mcHandler, ha, Plumb.acts, Plumb.act, hnd, Notif.isTerminal,
+                Bool.false_eq_true, if_false, List.mem_append, List.mem_singleton] at hj'
+              rcases hj' with hj' | hj'
+              · exact absurd (cnt_zero_no_inner st.p hc0 j' hj') hj0
+              · simp [mcM, mcHandler, ha, actSubs, hj']
+            · intro j' hj' hj0
+              simp only [step, hk, if_true, mcM, mcHandler, ha, Plumb.acts, Notif.isTerminal,
+                Bool.false_eq_true, if_false] at hj'
+              simpa [mcM, mcHandler, ha, actSubs] using h.last j' hj' hj0
+          | val v =>
+            intro j' hj' hj0
+            simp only [step, hk, if_true, mcM, mcHandler, Plumb.acts, Notif.isTerminal, Bool.false_eq_true, if_false] at hj'
+            simpa [mcM, mcHandler, actSubs] using h.last j' hj' hj0
+        | error er =>
+          intro j' hj'
+          simp [step, hk, mcM, mcHandler, Plumb.acts, Plumb.act, hnd, Notif.isTerminal] at hj'
+        | completed =>
+          intro j' hj' hj0
+          have hsub : j' ∈ st.p.live := by
+            simp only [step, hk, if_true, mcM, mcHandler, Notif.isTerminal] at hj'
+            have hj2 := act_unsub_live_sub _ _ _ hj'
+            split at hj2
+            · simp only [Plumb.acts] at hj2; exact act_emit_live_sub _ _ _ hj2
+            · simpa [Plumb.acts] using hj2
+          have : actSubs ((mcM (α := α) 1).handler st.s 0 .completed).2 = [] := by
+            simp only [mcM, mcHandler, if_true]; split <;> rfl
+          rw [this, List.append_nil]; exact h.last j' hsub hj0
+      · cases n with
+        | next x =>
+          cases x with
+          | obs j =>
+            intro j' hj' hj0
+            simp only [step, hk, if_true, mcM, mcHandler, hk0, Plumb.acts, Notif.isTerminal, Bool.false_eq_true, if_false] at hj'
+            simpa [mcM, mcHandler, hk0, actSubs] using h.last j' hj' hj0
+          | val v =>
+            intro j' hj' hj0
+            simp only [step, hk, if_true, mcM, mcHandler, hk0, Plumb.acts, Plumb.act, hnd, Notif.isTerminal, Bool.false_eq_true, if_false] at hj'
+            simpa [mcM, mcHandler, hk0, actSubs] using h.last j' hj' hj0
+        | error er =>
+          intro j' hj'
+          simp [step, hk, mcM, mcHandler, Plumb.acts, Plumb.act, hnd, Notif.isTerminal] at hj'
+        | completed =>
+          -- k is the only live inner: after its holder is removed no inner is live
+          have h1 := cnt_act_unsub_mem (β := α) st.p k hk hk0
+          have hc1 : cnt (st.p.act (β := α) (.unsub k)).1 = 0 := by
+            have := h.inv.le; have := h.inv.amax; omega
+          cases hq : st.s.queue with
+          | cons j rest =>
+            intro j' hj' hj0
+            simp only [step, hk, if_true, mcM, mcHandler, hk0, hq, if_false, Notif.isTerminal, Plumb.acts] at hj'
+            have hj2 := act_sub_live _ _ _ (act_unsub_live_sub _ _ _ hj')
+            rcases hj2 with hj2 | hj2
+            · exact absurd (cnt_zero_no_inner _ hc1 j' hj2) hj0
+            · simp [mcM, mcHandler, hk0, hq, actSubs, hj2]
+          | nil =>
+            intro j' hj' hj0
+            have hj2 : j' ∈ (st.p.act (β := α) (.unsub k)).1.live := by
+              simp only [step, hk, if_true, mcM, mcHandler, hk0, hq, if_false, Notif.isTerminal] at hj'
+              have hj3 := act_unsub_live_sub _ _ _ hj'
+              split at hj3
+              · simp only [Plumb.acts] at hj3; exact act_emit_live_sub _ _ _ hj3
+              · simpa [Plumb.acts] using hj3
+            exact absurd (cnt_zero_no_inner _ hc1 j' hj2) hj0
+    · rw [step_src_not_live _ _ _ _ hk]; simpa using h.last
+
+theorem o_run {α} (es : List (Ev (HV α))) : ∀ (subs : List Nat) (st : St McSt), OInv subs st →
+    OInv (subs ++ subsOf (run (mcM (α := α) 1) st es)) (final (mcM (α := α) 1) st es) := by
+  induction es with
+  | nil => intro subs st h; simpa [final] using h
+  | cons e es ih =>
+    intro subs st h
+    have := ih _ _ (o_step subs st e h)
+    simpa [run_cons, subsOf_append, final, List.append_assoc] using this
+
+end Comb
